@@ -189,10 +189,19 @@ defvjp(anp.deg2rad, lambda ans, x: lambda g: g * anp.pi / 180.0)
 defvjp(anp.radians, lambda ans, x: lambda g: g * anp.pi / 180.0)
 defvjp(anp.square, lambda ans, x: lambda g: g * 2 * x)
 defvjp(anp.sqrt, lambda ans, x: lambda g: g * 0.5 * x**-0.5)
-defvjp(
-    anp.sinc,
-    lambda ans, x: lambda g: g * (anp.cos(anp.pi * x) * anp.pi * x - anp.sin(anp.pi * x)) / (anp.pi * x**2),
-)
+
+
+def sinc_derivative(x):
+    # (cos(pi x) pi x - sin(pi x)) / (pi x^2) is 0/0 at x = 0, where sinc is smooth, and cancels badly next to
+    # it: close to 0 the series stands in, so that the slope and the next derivatives there are right too
+    near_zero = anp.abs(x) < 3e-3
+    safe_x = anp.where(near_zero, 1.0, x)
+    regular = (anp.cos(anp.pi * safe_x) * anp.pi * safe_x - anp.sin(anp.pi * safe_x)) / (anp.pi * safe_x**2)
+    series = -(anp.pi**2) * x / 3 + anp.pi**4 * x**3 / 30 - anp.pi**6 * x**5 / 840
+    return anp.where(near_zero, series, regular)
+
+
+defvjp(anp.sinc, lambda ans, x: lambda g: g * sinc_derivative(x))
 
 
 def argument_order(x, order):
